@@ -339,6 +339,10 @@ def simfs_validation(n):
         def repair(self, path):
             return "n/a"
 
+        def user_delete(self, path):
+            if os.path.exists(path):
+                os.remove(path)
+
     def one(i):
         plan = csvfs.gen_plan(rng_for(0, "C19", 100000 + i))
         srcs = csvfs.build_sources(pytrs, plan["sources"])
